@@ -84,8 +84,6 @@ Section OpenCrash.
   Lemma jprefix_jfull jd k : jprefix (jfull jd) k = jfile_of jd k.
   Proof. unfold jprefix, jfull, jfile_of. cbn [j_num j_recs j_synced]. rewrite firstn_map. reflexivity. Qed.
 
-  Definition olist {A} (o : option A) : list A := match o with Some a => [a] | None => [] end.
-
   Lemma jsel_no_prev jn n : 1 <= n -> SW.jsel jn 0 n = (jn <=? n).
   Proof. intros H. unfold SW.jsel. replace (n =? 0) with false by (symmetry; apply N.eqb_neq; lia). apply orb_false_r. Qed.
 
@@ -306,6 +304,53 @@ Section OpenRefines.
       destruct jfz as [jf|]; [|destruct Hjd]. destruct Hjd as [<-|[]]. right. exists jf. split; [reflexivity|exact Hin']. }
     split; [exact Ebs|]. split; [exact Hlv|]. split; [exact Hmok|]. split; [exact Hin|]. split; [exact Eimg|exact Erm].
   Qed.
+
+  (* Read-write Open of such an image, in the partial-correctness form: WHENEVER it returns a DB, the record-level
+     image it read is an image of s and what it kept — now all in tables, the buffer empty — together with what the
+     manifest's tables make durable is what the model's recover returns; db.seq is the model's running number.
+     Not proved: that it returns (the table writer accepts the buffer's keys, sessionRecord.encode is given no
+     negative number, the janitor finds every table the version names). *)
+  Theorem open_rw_refines_recover_partial o hts img m mrecs ks jfz jl newb f s r :
+    oo_strict_man o = false -> oo_strict_j o = false -> oo_ro o = false -> oo_err_exist o = false ->
+    heights_okl mp hts ->
+    image_ok o img m mrecs ks (olist jfz ++ [jl]) -> manifest_ok o mrecs ks -> no_prev mrecs -> jnums_ok jfz jl ->
+    order_embedding f -> f 0 = 0 -> pinv s -> denotes rp newb f s mrecs ks jfz jl ->
+    openb o hts img = OOk r ->
+    exists rimg k j nf q live cps d,
+      is_image s (image_map f rimg) /\ (ks <= k)%nat /\
+      replay_result rp (oo_cmp_name o) (firstn k (map fst mrecs)) = SpecOk j 0%Z nf q live cps /\
+      recover_full rimg = (os_seq r, flat_map newb (flat_map SR.sr_adds (firstn k (map fst mrecs))) ++ map pair_batch (os_kept r)) /\
+      (forall b, In b (p_acked s) -> In b (recover rimg)) /\
+      (forall b, In b (recover rimg) -> In b (p_issued s)) /\
+      sorted_b (recover rimg) /\
+      bs_mem (os_bs r) = Some d /\ mem_entries mp (Some d) = [] /\ bs_frozen (os_bs r) = None.
+  Proof.
+    intros Hsm Hsj Hro Hee Hh Himg Hman Hnp (Hn1 & Hn2) Hf Hf0 Hinv Hden Eopen.
+    assert (Hnd : NoDup (map jd_num (olist jfz ++ [jl]))).
+    { destruct jfz as [jf|]; cbn [olist app map]; [|repeat constructor; intros []].
+      destruct Hn2 as (_ & Hlt). constructor; [intros [E|[]]; lia|]. repeat constructor. intros []. }
+    destruct (open_rw_written jcrc jp jpok rp rpok kp kpok seek_val mp mpok tp tcrc compress snappy fgen blockSize ri c cok
+                o hts img m mrecs ks _ r Hsm Hsj Hro Hee Hh Himg Hman Hnd Eopen)
+      as (k & j & pj & nf & q & live & cps & bss & d & Hk & Espec & Hp & Eseq & Ekept & Emem & Eent & Efz).
+    assert (Epj : pj = 0%Z).
+    { apply (no_prev_pj rp (oo_cmp_name o) _ _ _ _ _ _ _ ) with (2 := Espec).
+      apply Forall_forall. intros x Hx. apply in_firstn in Hx. apply in_map_iff in Hx as (y & <- & Hy).
+      unfold no_prev in Hnp. rewrite Forall_forall in Hnp. exact (Hnp y Hy). }
+    subst pj.
+    assert (Hn2' : match jfz with Some jf => 1 <= jd_num jf /\ jd_num jf < jd_num jl | None => True end) by exact Hn2.
+    destruct (recover_of_prefixes jcrc rp newb (oo_cmp_name o) _ j nf q live cps jfz jl bss Espec Hn1 Hn2' Hp)
+      as (kf & kl & Hkl & Hkf & Erec).
+    set (rimg := rimage rp newb (firstn k (map fst mrecs)) jfz kf jl kl) in *.
+    assert (Him : is_image s (image_map f rimg)) by (apply (rimage_is_image rp newb f s mrecs ks jfz jl k kf kl Hden Hk Hkl Hkf)).
+    assert (Erecm : recover (image_map f rimg) = recover rimg).
+    { unfold recover. rewrite (recover_full_image_map f rimg Hf Hf0). reflexivity. }
+    destruct (crash_safe_inv s _ Hinv Him) as (Hack & Hiss & Hsort). rewrite Erecm in Hack, Hiss, Hsort.
+    exists rimg, k, j, nf, q, live, cps, d.
+    split; [exact Him|]. split; [exact Hk|]. split; [exact Espec|]. split.
+    { rewrite Erec, Eseq, Ekept, map_pair_batch. reflexivity. }
+    split; [exact Hack|]. split; [exact Hiss|]. split; [exact Hsort|].
+    split; [exact Emem|]. split; [exact Eent|exact Efz].
+  Qed.
 End OpenRefines.
 
 (* ---------------------------------------------------------------- what the recovered DB answers *)
@@ -369,19 +414,21 @@ Section OpenEndToEnd.
     destruct (accepted r (fst b + jb_n b)). exact IH.
   Qed.
 
-  (* what the tables named by a manifest prefix hold: a well-formed layout, older than everything the journals
-     will add, that answers like the plain map of the batches those tables make durable (C01, C06 and C13 are
-     about exactly this: flushes and compactions keep it) *)
+  (* what the tables named by a manifest prefix hold: a well-formed layout in which nothing is newer than the
+     recorded sequence number q, that answers at q like the plain map of the batches those tables make durable (C01,
+     C06 and C13 are about exactly this: flushes and compactions keep it); and no journal batch that the sequence
+     rule accepts starts AT q (the rule tests "first number < q", the batches written after a flush start above it) *)
   Definition tables_answer (o : oopts) (img : simage) (mrecs : list (SR.srec * bytes)) (ks : nat)
-      (newb : SR.atrec -> list Crash.batch) (cont : Crash.batch -> list brec) : Prop :=
+      (newb : SR.atrec -> list Crash.batch) (cont : Crash.batch -> list brec) (jfz : option jdesc) (jl : jdesc) : Prop :=
     forall k j nf q live cps lv d0, (ks <= k)%nat ->
       replay_result rp (oo_cmp_name o) (firstn k (map fst mrecs)) = SpecOk j 0%Z nf q live cps ->
       (forall l : nat, nth l lv [] = live_at (Z.of_nat l) live) -> MemDB.mdb_new mp = MemDB.Ok d0 ->
       let st0 := mkBS (Some d0) None (levels_of (si_files img) (sort_levels lv)) in
-      wfb st0 /\ uniq_in (all_entries (absS st0)) /\ 1 <= q /\ q <= keyMaxSeq kp /\
-      (forall x, In x (all_entries (absS st0)) -> e_seq x < q) /\
+      wfb st0 /\ uniq_in (all_entries (absS st0)) /\ q <= keyMaxSeq kp /\
+      (forall x, In x (all_entries (absS st0)) -> e_seq x <= q) /\
+      (forall b, (In b (jd_bs jl) \/ exists jf, jfz = Some jf /\ In b (jd_bs jf)) -> q <= fst b -> q < fst b) /\
       forall key, wf_bytes key ->
-        bapi (getb st0 key (q - 1)) =
+        bapi (getb st0 key q) =
         Some (a_get c key (cmap cont [] (flat_map newb (flat_map SR.sr_adds (firstn k (map fst mrecs)))))).
 
   (* the journals' batches: their records are what the ghost says, and their sequence numbers are in range *)
@@ -394,7 +441,7 @@ Section OpenEndToEnd.
     heights_okl mp hts ->
     image_ok o img m mrecs ks (olist jfz ++ [jl]) -> manifest_ok o mrecs ks -> no_prev rp mrecs -> jnums_ok jfz jl ->
     order_embedding f -> f 0 = 0 -> pinv s -> denotes rp newb f s mrecs ks jfz jl ->
-    journal_batches_ok cont jfz jl -> tables_answer o img mrecs ks newb cont ->
+    journal_batches_ok cont jfz jl -> tables_answer o img mrecs ks newb cont jfz jl ->
     exists r L,
       openb o hts img = OOk r /\ wfb (os_bs r) /\
       (forall b, In b (p_acked s) -> In b L) /\ (forall b, In b L -> In b (p_issued s)) /\ sorted_b L /\
@@ -407,7 +454,7 @@ Section OpenEndToEnd.
       as (r & rimg & k & j & nf & q & live & cps & lv & bss & d & Eopen & Him & Hk & Espec & Erec & _ & Hack & Hiss & Hsort &
           Eseq & Ekept & Hfrom & Ebs & Hlv & Hmok & Hin & Eimg & _).
     destruct (OpenPathProofs.new_mem_ok kp seek_val mp mpok c) as (d0 & Enew & Hm0 & Hent0).
-    destruct (Htab k j nf q live cps lv d0 Hk Espec Hlv Enew) as (W0 & Hu & Hq1 & Hqm & Hold & Hans).
+    destruct (Htab k j nf q live cps lv d0 Hk Espec Hlv Enew) as (W0 & Hu & Hqm & Hold & Hgap & Hans).
     set (st0 := mkBS (Some d0) None (levels_of (si_files img) (sort_levels lv))) in *.
     set (acc := fst (accepted (concat bss) q)) in *.
     set (tabs := flat_map newb (flat_map SR.sr_adds (firstn k (map fst mrecs)))) in *.
@@ -424,6 +471,7 @@ Section OpenEndToEnd.
     { apply accepted_bound; [|exact Hqm]. intros b Hb. exact (proj2 (Hjb b (Hfrom b Hb))). }
     assert (EL : recover rimg = tabs ++ map jb_abs acc).
     { unfold recover. rewrite Erec. cbn [snd]. rewrite Ekept, map_pair_batch. reflexivity. }
+    assert (Hgap' : forall b, In b (concat bss) -> q <= fst b -> q < fst b) by (intros b Hb; exact (Hgap b (Hfrom b Hb))).
     exists r, (recover rimg). split; [exact Eopen|].
     assert (Ewm : os_bs r = with_mem st0 d) by (rewrite Ebs; reflexivity).
     assert (Hcont : forall b, In b acc -> cont (jb_abs b) = jb_recs b).
@@ -431,13 +479,13 @@ Section OpenEndToEnd.
     split.
     { (* well-formed: any key will do to invoke the theorem *)
       destruct (replayed_state_answers c cok kp kpok seek_val mp mpok tp tcrc decompress fname ufc verify ri
-                  st0 d0 d (concat bss) q [] (cmap cont [] tabs) W0 eq_refl Hent0 Hu Hq1 Hold Hbok Hemax Hmok Hin (Forall_nil _)
+                  st0 d0 d (concat bss) q q [] (cmap cont [] tabs) W0 eq_refl Hent0 Hu Hold (N.le_refl q) Hgap' Hbok Hemax Hmok Hin (Forall_nil _)
                   (Hans [] (Forall_nil _))) as (W' & _).
       rewrite Ewm. exact W'. }
     split; [exact Hack|]. split; [exact Hiss|]. split; [exact Hsort|]. split; [exact Eimg|].
     intros key Wk.
     destruct (replayed_state_answers c cok kp kpok seek_val mp mpok tp tcrc decompress fname ufc verify ri
-                st0 d0 d (concat bss) q key (cmap cont [] tabs) W0 eq_refl Hent0 Hu Hq1 Hold Hbok Hemax Hmok Hin Wk
+                st0 d0 d (concat bss) q q key (cmap cont [] tabs) W0 eq_refl Hent0 Hu Hold (N.le_refl q) Hgap' Hbok Hemax Hmok Hin Wk
                 (Hans key Wk)) as (_ & G).
     rewrite Ewm, Eseq, G, EL, cmap_app, (cmap_batches cont acc Hcont). reflexivity.
   Qed.
